@@ -26,7 +26,7 @@ def run(ctx):
                 "executed on the real builder/printer/parser; seeded random component texts recorded from the real "
                 "code and judged by TLC. distinct_nontrivial = tuples/events with at least one present component.")
     ctx.assumptions += [
-        "premise of C17 as predicate PersonName!WellFormed: no '^', '=', '\\\\' in a component, no leading/trailing "
+        "premise of C17 as predicate PersonName!WellFormed: no '^', '=' in a component (a backslash is allowed), no leading/trailing "
         "space; random texts additionally avoid control characters and Unicode whitespace at component edges",
         "a present component is a non-empty string (a component set to \"\" through the builder is reported as drift only)",
     ]
@@ -37,8 +37,11 @@ def run(ctx):
     rep = vlib.run_driver("drv_pname", ["replay", "--cases", cases, "--out", ctx.path("replay")], env=ctx.env())
     if rep["cases"] != n:
         raise vlib.ToolError("driver executed %d of %d cases" % (rep["cases"], n))
-    ctx.cov["evaluations"] += rep["cases"]
+    if not rep.get("reuse_names") and not rep.get("mismatch_count"):
+        raise vlib.ToolError("vacuity: no names built from a reused builder")
+    ctx.cov["evaluations"] += rep["cases"] + rep["reuse_names"]
     ctx.cov["distinct_nontrivial"] += rep["nontrivial"]
+    ctx.extra_cov["names_built_from_a_reused_builder"] = rep["reuse_names"]
     V.report_mismatches(ctx, rep, "TLC case on real code")
     if rep.get("drift_some_empty"):
         ctx.note("drift (not judged): %d tuples where a component set to the empty string through the builder is "
